@@ -44,6 +44,7 @@ type w1Client struct {
 	User     string   `json:"user"`
 	ConnSubs []string `json:"conn_subs,omitempty"` // connect-time server-side subscriptions
 	NoPong   bool     `json:"no_pong,omitempty"`
+	PongDelayMs int   `json:"pong_delay_ms,omitempty"`
 	Labels   map[string]string `json:"labels,omitempty"`
 	ExpireInSec int   `json:"expire_in_s,omitempty"`
 	Ops      []w1Op   `json:"ops"`
@@ -68,6 +69,9 @@ type w1Cfg struct {
 	DropPm          int  `json:"pubsub_drop_pm"`
 	DupPm           int  `json:"pubsub_dup_pm"`
 	DelayPm         int  `json:"pubsub_delay_pm"`
+	ExpiredDelayMs  int  `json:"expired_close_delay_ms"`
+	HistoryMax      int  `json:"history_max_publication_limit"`
+	RecoveryMax     int  `json:"recovery_max_publication_limit"`
 	SubFailPm       int  `json:"broker_subscribe_fail_pm"`
 	UnsubFailPm     int  `json:"broker_unsubscribe_fail_pm"`
 	SettleMs        int  `json:"settle_ms"`
@@ -125,6 +129,7 @@ type w1Frame struct {
 }
 
 type w1Cmd struct {
+	At       time.Duration
 	Seq      int64
 	RetSeq   int64
 	ID       uint32
@@ -143,6 +148,8 @@ type w1CB struct {
 }
 
 type w1NodeOp struct {
+	At          time.Duration
+	N           int
 	Seq, RetSeq int64
 	Kind        string
 	Ch, User    string
@@ -184,6 +191,7 @@ type w1SimClient struct {
 	lastPos map[string]StreamPosition // last position seen per channel (for recover)
 	observer bool
 	onConnectRan bool
+	acceptedAt   time.Duration
 	instances    []*w1Instance
 }
 
@@ -203,6 +211,7 @@ type w1World struct {
 	shutdownDone bool
 	shutdownRet  int64
 	pendingAsync int
+	startUnix    int64
 	csr          bool // ConnectReply.ClientSideRefresh
 	preRun       func(n *Node) // cluster world: install shared broker / controller before Run
 	seqSrc       *int64       // cluster world: one event counter for all nodes
@@ -414,7 +423,13 @@ func (cl *w1SimClient) onReply(rep *protocol.Reply) {
 		}
 	case "ping":
 		if !cl.spec.NoPong && cl.connected {
-			cl.w.s.Go(func() { cl.send(&protocol.Command{}, "pong", "") })
+			delay := time.Duration(cl.spec.PongDelayMs) * time.Millisecond
+			cl.w.s.Go(func() {
+				if delay > 0 {
+					cl.w.s.Sleep(delay)
+				}
+				cl.send(&protocol.Command{}, "pong", "")
+			})
 		}
 	}
 }
@@ -435,7 +450,7 @@ func (cl *w1SimClient) send(cmd *protocol.Command, kind, ch string) bool {
 	if cl.readerDone || !cl.accept() {
 		return false
 	}
-	rec := &w1Cmd{Seq: w.next(), ID: cmd.Id, Kind: kind, Ch: ch, PreAuth: !cl.connected}
+	rec := &w1Cmd{At: w.s.Now(), Seq: w.next(), ID: cmd.Id, Kind: kind, Ch: ch, PreAuth: !cl.connected}
 	cl.cmds = append(cl.cmds, rec)
 	w.s.Event("c%d cmd %s id=%d ch=%s", cl.idx, kind, cmd.Id, ch)
 	ok := cl.client.HandleCommand(cmd, 10)
@@ -487,13 +502,36 @@ func (cl *w1SimClient) runOp(op w1Op) bool {
 	case "hist":
 		req := &protocol.HistoryRequest{Channel: op.Ch, Limit: int32(op.N), Reverse: op.Rev}
 		if op.Since >= 0 {
-			req.Since = &protocol.StreamPosition{Offset: uint64(op.Since), Epoch: cl.lastPos[op.Ch].Epoch}
+			epoch := cl.lastPos[op.Ch].Epoch
+			if cl.w.prop == "C43" {
+				if top, err := cl.w.node.History(op.Ch); err == nil {
+					epoch = top.Epoch
+				}
+			}
+			req.Since = &protocol.StreamPosition{Offset: uint64(op.Since), Epoch: epoch}
 		}
-		return cl.send(&protocol.Command{Id: cl.id(), History: req}, "history", op.Ch)
+		id := cl.id()
+		ok := cl.send(&protocol.Command{Id: id, History: req}, "history", op.Ch)
+		if ok && cl.w.prop == "C43" {
+			cl.w.checkHistoryReply(cl, id, req)
+		}
+		return ok
 	case "pres":
-		return cl.send(&protocol.Command{Id: cl.id(), Presence: &protocol.PresenceRequest{Channel: op.Ch}}, "presence", op.Ch)
+		before := cl.w.presenceKey(op.Ch)
+		id := cl.id()
+		ok := cl.send(&protocol.Command{Id: id, Presence: &protocol.PresenceRequest{Channel: op.Ch}}, "presence", op.Ch)
+		if ok && cl.w.prop == "C43" {
+			cl.w.checkPresenceReply(cl, id, op.Ch, false, before)
+		}
+		return ok
 	case "pstats":
-		return cl.send(&protocol.Command{Id: cl.id(), PresenceStats: &protocol.PresenceStatsRequest{Channel: op.Ch}}, "presence_stats", op.Ch)
+		before := cl.w.presenceKey(op.Ch)
+		id := cl.id()
+		ok := cl.send(&protocol.Command{Id: id, PresenceStats: &protocol.PresenceStatsRequest{Channel: op.Ch}}, "presence_stats", op.Ch)
+		if ok && cl.w.prop == "C43" {
+			cl.w.checkPresenceReply(cl, id, op.Ch, true, before)
+		}
+		return ok
 	case "rpc":
 		return cl.send(&protocol.Command{Id: cl.id(), Rpc: &protocol.RPCRequest{Method: "m", Data: []byte(`{}`)}}, "rpc", "")
 	case "send":
@@ -507,6 +545,12 @@ func (cl *w1SimClient) runOp(op w1Op) bool {
 		return cl.send(&protocol.Command{Subscribe: &protocol.SubscribeRequest{Channel: op.Ch}}, "noid", op.Ch)
 	case "empty":
 		return cl.send(&protocol.Command{Id: cl.id()}, "emptycmd", "")
+	case "accept":
+		// the transport handler accepted the connection; the peer sends nothing (yet)
+		cl.cmdMu.Lock()
+		cl.accept()
+		cl.cmdMu.Unlock()
+		return true
 	case "close":
 		// the peer goes away: the transport handler runs the close func
 		cl.cmdMu.Lock()
@@ -574,6 +618,9 @@ func (w *w1World) setup() error {
 		ClientPresenceUpdateInterval:     time.Duration(cfg.PresenceMs) * time.Millisecond,
 		ClientChannelPositionCheckDelay:  time.Duration(cfg.PositionCheckMs) * time.Millisecond,
 		ClientQueueMaxSize:               cfg.QueueMax,
+		HistoryMaxPublicationLimit:       cfg.HistoryMax,
+		ClientExpiredCloseDelay:          time.Duration(cfg.ExpiredDelayMs) * time.Millisecond,
+		RecoveryMaxPublicationLimit:      cfg.RecoveryMax,
 		Metrics:                          MetricsConfig{RegistererGatherer: w.reg},
 	}
 	if cfg.PresenceConc > 1 {
@@ -716,6 +763,7 @@ func (cl *w1SimClient) accept() bool {
 		panic(err)
 	}
 	cl.client, cl.closeFn = c, closeFn
+	cl.acceptedAt = cl.w.s.Now()
 	return true
 }
 
@@ -833,14 +881,15 @@ func (w *w1World) runPublisher(ops []w1Op) {
 	}
 }
 
-func (w *w1World) nodeOp(kind, user, ch string, c int, f func() error) {
-	rec := &w1NodeOp{Seq: w.next(), Kind: kind, User: user, Ch: ch, C: c}
+func (w *w1World) nodeOp(kind, user, ch string, c int, f func() error) *w1NodeOp {
+	rec := &w1NodeOp{At: w.s.Now(), Seq: w.next(), Kind: kind, User: user, Ch: ch, C: c}
 	w.nodeOps = append(w.nodeOps, rec)
 	w.s.Event("nodeop %s user=%s ch=%s c=%d", kind, user, ch, c)
 	if err := f(); err != nil {
 		rec.Err = err.Error()
 	}
 	rec.RetSeq = w.next()
+	return rec
 }
 
 func (w *w1World) runAdmin(ops []w1Op) {
@@ -877,6 +926,11 @@ func (w *w1World) runAdmin(ops []w1Op) {
 			w.nodeOp("cunsub", user, op.Ch, op.C, func() error { cl.client.Unsubscribe(op.Ch); return nil })
 		case "cdisc":
 			w.nodeOp("cdisc", user, "", op.C, func() error { cl.client.Disconnect(DisconnectForceNoReconnect); return nil })
+		case "nrefresh":
+			exp := time.Now().Unix() + int64(op.N)
+			var rec *w1NodeOp
+			rec = w.nodeOp("nrefresh", user, "", op.C, func() error { return w.node.Refresh(user, WithRefreshExpireAt(exp)) })
+			rec.N = int(exp)
 		case "shutdown":
 			w.nodeOp("shutdown", "", "", op.C, func() error {
 				ctx, cancel := context.WithTimeout(context.Background(), 30*time.Second)
@@ -896,7 +950,7 @@ func (w *w1World) runAdmin(ops []w1Op) {
 
 func w1Run(s *simrt.Sim, script any, prop string) {
 	sc := script.(*w1Script)
-	w := &w1World{s: s, sc: sc, prop: prop, byTransport: map[*w1Transport]*w1SimClient{}}
+	w := &w1World{s: s, sc: sc, prop: prop, byTransport: map[*w1Transport]*w1SimClient{}, startUnix: time.Now().Unix()}
 	if err := w.setup(); err != nil {
 		s.Violate(prop, "harness", "node setup failed", "%v", err)
 		return
@@ -919,6 +973,14 @@ func w1Run(s *simrt.Sim, script any, prop string) {
 	}
 	done := make(chan struct{}, 64)
 	n := 0
+	if prop == "C43" {
+		for _, ops := range sc.Pubs {
+			w.runPublisher(ops)
+		}
+		sc2 := *sc
+		sc2.Pubs = nil
+		sc = &sc2
+	}
 	for _, cl := range w.clients {
 		if cl.observer {
 			continue
@@ -936,6 +998,10 @@ func w1Run(s *simrt.Sim, script any, prop string) {
 	}
 	for _, ops := range sc.Pubs {
 		ops := ops
+		if prop == "C43" {
+			w.runPublisher(ops) // history first; the requests are compared at quiescence
+			continue
+		}
 		n++
 		s.Go(func() { defer func() { done <- struct{}{} }(); w.runPublisher(ops) })
 	}
@@ -1011,6 +1077,7 @@ var w1Flavours = map[string][]string{
 	"C11": {"_", "_", "p_", "jJ_"},
 	"C36": {"_", "e_"},
 	"C26": {"_", "p_", "_", "e_"},
+	"C43": {"h_", "ph_", "eh_", "rh_"},
 	"C37": {"_", "p_"},
 }
 
@@ -1038,6 +1105,17 @@ func w1Gen(c *simrt.Choice, prop, tier string) any {
 	}
 	if prop == "C37" {
 		cfg.ChannelLimit = 1 + c.Intn(3)
+	}
+	if prop == "C36" {
+		cfg.PingMs = []int{1000, 2000}[c.Intn(2)]
+		cfg.PongMs = []int{400, 900}[c.Intn(2)]
+		cfg.StaleMs = []int{1500, 3000}[c.Intn(2)]
+		cfg.ExpiredDelayMs = []int{500, 1000}[c.Intn(2)]
+		cfg.PresenceMs = 25000
+	}
+	if prop == "C43" {
+		cfg.HistoryMax = []int{0, 1, 2, 5}[c.Intn(4)]
+		cfg.HistorySize = []int{3, 10}[c.Intn(2)]
 	}
 	if prop == "C26" {
 		cfg.SubFailPm = []int{0, 100, 300}[c.Intn(3)]
@@ -1071,6 +1149,27 @@ func w1Gen(c *simrt.Choice, prop, tier string) any {
 				cl.ConnSubs = append(cl.ConnSubs, sc.Channels[j])
 			}
 		}
+		if prop == "C36" {
+			switch c.Intn(5) {
+			case 0: // never authenticates
+				cl.Ops = []w1Op{{K: "accept"}, {K: "sleep", DelayUs: 5000000}}
+				sc.Clients = append(sc.Clients, cl)
+				continue
+			case 1:
+				cl.NoPong = true
+			case 2:
+				cl.PongDelayMs = []int{100, 300, 600, 1200}[c.Intn(4)]
+			case 3:
+				cl.ExpireInSec = 2 + c.Intn(3)
+			}
+			cl.Ops = []w1Op{{K: "connect"}}
+			if c.Intn(2) == 0 {
+				cl.Ops = append(cl.Ops, w1Op{K: "sub", Ch: pickCh()})
+			}
+			cl.Ops = append(cl.Ops, w1Op{K: "sleep", DelayUs: []int{3000000, 5000000, 7000000}[c.Intn(3)]})
+			sc.Clients = append(sc.Clients, cl)
+			continue
+		}
 		// most clients connect first; a few misbehave before connecting (C09)
 		if prop == "C09" && c.Intn(3) == 0 {
 			cl.Ops = append(cl.Ops, w1Op{K: []string{"sub", "rpc", "pong", "hist", "pub", "unsub", "send", "ping"}[c.Intn(8)], Ch: pickCh()})
@@ -1079,7 +1178,11 @@ func w1Gen(c *simrt.Choice, prop, tier string) any {
 		nops := 1 + c.Intn(maxOps)
 		for j := 0; j < nops; j++ {
 			var op w1Op
-			switch c.Pick(8, 5, 3, 1, 1, 1, 1, 1, 1, 1) {
+			weights := []int{8, 5, 3, 1, 1, 1, 1, 1, 1, 1}
+			if prop == "C43" {
+				weights = []int{4, 1, 1, 0, 10, 6, 0, 0, 0, 0}
+			}
+			switch c.Pick(weights...) {
 			case 0:
 				op = w1Op{K: "sub", Ch: pickCh(), Recover: c.Intn(2) == 0}
 				if c.Intn(3) == 0 {
@@ -1095,7 +1198,7 @@ func w1Gen(c *simrt.Choice, prop, tier string) any {
 			case 3:
 				op = w1Op{K: "pub", Ch: pickCh()}
 			case 4:
-				op = w1Op{K: "hist", Ch: pickCh(), N: c.Intn(5) - 1, Since: c.Intn(4) - 1, Rev: c.Intn(3) == 0}
+				op = w1Op{K: "hist", Ch: pickCh(), N: c.Intn(8) - 2, Since: c.Intn(6) - 1, Rev: c.Intn(3) == 0}
 			case 5:
 				op = w1Op{K: []string{"pres", "pstats"}[c.Intn(2)], Ch: pickCh()}
 			case 6:
@@ -1148,6 +1251,14 @@ func w1Gen(c *simrt.Choice, prop, tier string) any {
 			ops = append(ops, op)
 		}
 		sc.Admins = append(sc.Admins, ops)
+	}
+	if prop == "C36" {
+		sc.Admins = nil
+		for i, cl := range sc.Clients {
+			if cl.ExpireInSec > 0 && c.Intn(2) == 0 {
+				sc.Admins = append(sc.Admins, []w1Op{{K: "sleep", DelayUs: []int{500000, 1500000, 3500000}[c.Intn(3)]}, {K: "nrefresh", C: i, N: 3 + c.Intn(4)}})
+			}
+		}
 	}
 	if prop == "C08" && c.Intn(2) == 0 {
 		ops := []w1Op{{K: "sleep", DelayUs: []int{0, 1, 100, 2000, 200000}[c.Intn(5)]}, {K: "shutdown"}}
@@ -1258,7 +1369,7 @@ func init() {
 			return r.Probes["nontrivial:"+prop] > 0
 		},
 	})
-	for _, p := range []string{"C04", "C05", "C10", "C01", "C06", "C07", "C08", "C09", "C11", "C26"} {
+	for _, p := range []string{"C04", "C05", "C10", "C01", "C06", "C07", "C08", "C09", "C11", "C26", "C43", "C36"} {
 		simrt.Claim(p, "w1", 10)
 	}
 }
